@@ -46,6 +46,11 @@ if [ "$id" = replay ]; then
   exec "$VERIF_OUT/bin/$eng" replay "$file"
 fi
 
+if [ "$id" = conform ]; then
+  build conc || { echo "build failed" >&2; exit 2; }
+  exec "$VERIF_OUT/bin/conc" conform -
+fi
+
 eng=$(engine_of "$id")
 [ "$eng" = none ] && { echo "unknown property $id" >&2; exit 2; }
 build "$eng" || { echo "BUILD-FAILED engine=$eng (exit 2: the machinery could not be built against the current tree)" >&2; exit 2; }
